@@ -128,7 +128,7 @@ def shard_objects(rec, part, parts):
         rc = mk()
         if not rc.refs:
             continue
-        for oi in range(6):
+        for oi in range(len(bocfam.OPTION_SETS)):
             case_unshared(rec, name, oi)
         n = len(bocfam.lib_nodes(to_lib(rc)))
         for i in range(n):
@@ -178,7 +178,7 @@ def case_dag(rec, name, opt_i, tier=None):
     if len(roots) != 1 or roots[0].hash() != rc.hash() or RC.canon(roots[0]) != RC.canon(rc):
         rec.violation(f'dag:{on}', f'{name}: emitted bytes decode to a different DAG', 'case_dag', args)
         return
-    if bool(info['has_idx']) != opts['has_idx'] or bool(info['has_crc']) != opts['hash_crc32'] or bool(info['has_cache']) != opts['has_cache_bits']:
+    if bool(info['has_idx']) != (opts['has_idx'] or opts['has_cache_bits']) or bool(info['has_crc']) != opts['hash_crc32'] or bool(info['has_cache']) != opts['has_cache_bits']:
         rec.violation(f'flags:{on}', f'{name}: flags byte does not reflect the requested options: {info["has_idx"], info["has_crc"], info["has_cache"]}', 'case_dag', args)
     n = len(RC.topo([rc]))
     if info['n'] != n:
@@ -197,13 +197,13 @@ def shard_names(rec, part, parts):
     for i, (name, mk) in enumerate(fam):
         if i % parts != part or name.startswith('cells:6') or name.startswith('payload:6') or name.startswith('payload:3'):
             continue
-        for oi in range(6):
+        for oi in range(len(bocfam.OPTION_SETS)):
             case_dag(rec, name, oi)
         if i < 2:
             rec.sample({'dag': name, 'option_sets': [bocfam.opt_name(o) for o in bocfam.OPTION_SETS], 'oracle': 'strict reference decoder'})
 
 
 def shard_one(rec, name):
-    for oi in range(6):
+    for oi in range(len(bocfam.OPTION_SETS)):
         case_dag(rec, name, oi)
     rec.sample({'dag': name, 'option_sets': 'all 6'})
